@@ -200,6 +200,31 @@ pub fn decompress_vector(value: &CompressedValue) -> Result<Vec<f32>, FormatErro
                 shape: shape.clone(),
                 ranks: ranks.clone(),
             };
+            // A decoded snapshot is untrusted: the cores must chain (1, n_1, r_1)(r_1, n_2, r_2)...
+            // (r_k, n_k, 1) and hold exactly that many values, or reconstruction would index
+            // out of bounds.
+            let mut left = 1usize;
+            let consistent = tt.cores.len() == tt.shape.len()
+                && tt.cores.iter().zip(&tt.shape).all(|(core, &n)| {
+                    let (r1, mode, r2) = core.shape;
+                    let ok = r1 == left
+                        && mode == n
+                        && r1
+                            .checked_mul(mode)
+                            .and_then(|x| x.checked_mul(r2))
+                            .is_some_and(|len| len == core.data.len());
+                    left = r2;
+                    ok
+                })
+                && left == 1
+                && tt
+                    .shape
+                    .iter()
+                    .try_fold(1usize, |acc, &n| acc.checked_mul(n))
+                    .is_some();
+            if !consistent {
+                return Err(FormatError::TensorTrain(crate::TTError::IncompatibleShapes));
+            }
             Ok(tt_reconstruct(&tt))
         },
         CompressedValue::IdList(bytes) => {
